@@ -106,6 +106,17 @@ CLAIMED["C16"] = dict(
     technique="TLA+ spec Runner/RunnerReq + TLC sequence enumeration, fault injection at every discovered command of the real scripts in a namespace sandbox, TLC trace validation (RunnerTrace)",
 )
 
+CLAIMED["C17"] = dict(
+    category="model_checking",
+    text="TLC enumerates every scenario of the LocalRun machine (file configurations, docker metadata, output directory, backend, translation outcome, container "
+         "outcome incl. failure after k output chunks and a missing result file) and checks the design-level ordering facts; each scenario is executed in a fresh "
+         "interpreter with the real LocalDataset classes against a stand-in python_on_whales; TLC (LocalRunTrace) validates exception-or-result, the docker.run "
+         "arguments (image, command, mounts), filelist.txt, pre-flight errors before any container, and removal of the temporary directory.",
+    design_ref="DESIGN.md section 5 C17, section 2.9",
+    note="All 576 scenarios; python_on_whales is a stand-in (harness/fake_pkgs), so docker itself is not exercised; TMPDIR is redirected to observe leftovers.",
+    technique="TLA+ spec LocalRun/LocalRunReq + TLC scenario enumeration, replay through the real LocalDataset with a stand-in docker, TLC trace validation (LocalRunTrace)",
+)
+
 PENDING = "check not built yet in this round (planned, see DESIGN.md section 11); not claimed until its machinery exists"
 
 
